@@ -36,9 +36,9 @@ type NodeConfig struct {
 func DefaultNodeConfig() NodeConfig {
 	return NodeConfig{
 		BitcoinEnabled: true, LiquidEnabled: true,
-		PolicyText:  "accept_all_peers=1\nmin_swap_amount_msat=1000000\n",
-		Impl:        "CLN",
-		BtcBalance:  50_000_000, LbtcBalance: 50_000_000,
+		PolicyText: "accept_all_peers=1\nmin_swap_amount_msat=1000000\n",
+		Impl:       "CLN",
+		BtcBalance: 50_000_000, LbtcBalance: 50_000_000,
 		BtcFeePerKw: 1000, LbtcFee: 300,
 	}
 }
@@ -61,6 +61,8 @@ type Node struct {
 	CrashFlavor string // "before" | "after"
 	// Fault is consulted at every crossing; a non-nil error is returned to the node instead of the effect.
 	Fault func(op string) error
+	// OnCrossing is called at every crossing before the crash plan is applied.
+	OnCrossing func(k int64, op string)
 	// CrossLog records op names per crossing index (1-based) when RecordCrossings is set.
 	RecordCrossings bool
 	CrossOps        []string
@@ -296,6 +298,9 @@ func (inc *Incarnation) enter(op string) (int64, error) {
 		n.CrossOps = append(n.CrossOps, op)
 		n.w.mu.Unlock()
 	}
+	if n.OnCrossing != nil {
+		n.OnCrossing(k, op)
+	}
 	if n.CrashAt == k && n.CrashFlavor != "after" {
 		inc.die("before:"+op, k)
 		parkForever()
@@ -465,3 +470,6 @@ func (w *World) DeliverNow(from, toName string, msgTypeHex string, payload []byt
 	}
 	return
 }
+
+// StoredSwapLocked is StoredSwap for online monitors (it does not touch the world lock).
+func (n *Node) StoredSwapLocked(id string) *swap.SwapStateMachine { return n.StoredSwap(id) }
